@@ -52,6 +52,14 @@ func ceSigner(fail bool, record *[]byte) cloudevents.Signer {
 	}
 }
 
+type ceHold struct {
+	e    *eventlogger.Event
+	key  string
+	want []byte
+}
+
+var ceHeld []ceHold
+
 func ceMain(args []string) {
 	fs := flag.NewFlagSet("ce", flag.ExitOnError)
 	seed := fs.Uint64("seed", 1, "seed")
@@ -175,6 +183,20 @@ func ceMain(args []string) {
 			fname, fcode = string(cloudevents.FormatText), 3
 		}
 		stored, has := e.Format(fname)
+		// the document stored for an earlier event does not change when later events are formatted
+		for _, hd := range ceHeld {
+			if got2, ok2 := hd.e.Format(hd.key); !ok2 || string(got2) != string(hd.want) {
+				oracle("C18 the document stored for an earlier event changed after another event was formatted: %.70q -> %.70q", hd.want, got2)
+				ceHeld = nil
+				break
+			}
+		}
+		if has && err == nil {
+			ceHeld = append(ceHeld, ceHold{e, fname, append([]byte(nil), stored...)})
+			if len(ceHeld) > 8 {
+				ceHeld = ceHeld[1:]
+			}
+		}
 		res := ""
 		fresh := "-"
 		switch {
